@@ -231,12 +231,12 @@ def run(ctx):
     samples.append({"scenario": F22_IO_SCENARIO, "policy": "explore<=2 preemptions", "runs": r["runs"],
                     "per_level": r["per_preemption_level"], "f22_io_reproduced": f22_io[0]})
     for sc, gran, maxpre in TINY:
-        r = explore_case(sc, maxpre + (1 if thorough else 0), 6000 if thorough else (450 if gran == "attrs" else 250), gran)
+        r = explore_case(sc, maxpre + (1 if thorough else 0), 2500 if thorough else (450 if gran == "attrs" else 250), gran)
         samples.append({"scenario": sc, "policy": "explore<=%d preemptions/%s" % (maxpre + (1 if thorough else 0), gran),
                         "runs": r["runs"], "per_level": r["per_preemption_level"], "truncated": r["truncated"]})
 
     # 2. K-chan + monitor on generated scenarios, attribute granularity
-    n_attr = 6000 if thorough else 700
+    n_attr = 3500 if thorough else 700
     for n in range(n_attr):
         sc = H.gen_race_scenario(rng) if rng.random() < 0.35 else H.gen_scenario(rng)
         for k in sc["msgs"]:
@@ -252,7 +252,7 @@ def run(ctx):
             samples.append({"scenario": sc, "policy": pk, "labels": labs[:14], "verdict": v})
 
     # 3. monitor on generated scenarios, lock granularity (coarser steps, more schedules)
-    n_lock = 12000 if thorough else 1200
+    n_lock = 7000 if thorough else 1200
     for n in range(n_lock):
         sc = H.gen_race_scenario(rng) if rng.random() < 0.35 else H.gen_scenario(rng)
         pk = rng.choice(["random", "random", "pct1", "pct2", "pct3"])
